@@ -175,7 +175,47 @@ sys.exit(1 if bad else 0)
 '''
 
 
+SCOPE_DOMAIN = '''
+import sys, os, tempfile, importlib.util
+src = """
+from onnxscript import script, FLOAT, BOOL
+from onnxscript import opset18 as op
+from onnxscript.values import Opset
+custom = Opset("my.custom", 3)
+
+@script(default_opset=op)
+def in_branch(x: FLOAT["N"], c: BOOL) -> FLOAT["N"]:
+    if c:
+        y = custom.Foo(x)
+    else:
+        y = op.Identity(x)
+    return y
+
+@script(default_opset=op)
+def in_loop(x: FLOAT["N"]) -> FLOAT["N"]:
+    acc = x
+    for i in range(3):
+        acc = custom.Foo(acc)
+    return acc
+"""
+d = tempfile.mkdtemp(); path = os.path.join(d, "sd_case.py"); open(path, "w").write(src)
+spec = importlib.util.spec_from_file_location("sd_case", path); mod = importlib.util.module_from_spec(spec); sys.modules["sd_case"] = mod; spec.loader.exec_module(mod)
+import onnx
+bad = 0
+for name in ("in_branch", "in_loop"):
+    f = getattr(mod, name)
+    fdoms = [o.domain for o in f.to_function_proto().opset_import]
+    mdoms = [o.domain for o in f.to_model_proto().opset_import]
+    if "my.custom" not in fdoms or "my.custom" not in mdoms:
+        print(f"{name}: my.custom.Foo is used inside a control-flow body, but the function imports {fdoms} and the model imports {mdoms}")
+        bad += 1
+sys.exit(1 if bad else 0)
+'''
+
+
 def replay(ob):
+    if "scope.domains_used_inside_a_block" in ob["name"]:
+        return SCOPE_DOMAIN
     if "return.no_graph_input_returned_directly" in ob["name"] or "return.outputs_produced_in_this_graph" in ob["name"]:
         return RETURN_ALIAS
     if "nested_def.declared_return_types" in ob["name"]:
